@@ -75,57 +75,104 @@ func checkKeySites(c *core.Ctx, rule string, a *txAnchors) {
 	p := c.P
 	sprintf := p.Func("fmt", "Sprintf")
 	idTx, idRx := p.Field(pkgPfcp, "TxTransaction", "id"), p.Field(pkgPfcp, "RxTransaction", "id")
+	// a key is built by fmt.Sprintf directly, or by an own helper that returns such a Sprintf of its parameters
+	var resolve func(v ssa.Value, d int) (*ssa.Call, bool)
+	resolve = func(v ssa.Value, d int) (*ssa.Call, bool) {
+		cl, ok := v.(*ssa.Call)
+		if !ok || d > 2 {
+			return nil, false
+		}
+		if core.Callee(cl) == sprintf {
+			return cl, true
+		}
+		f := core.StaticFn(cl)
+		if f == nil || !p.IsOwnFn(f) || f.Blocks == nil {
+			return nil, false
+		}
+		var found *ssa.Call
+		okAll := true
+		core.Instrs(f, func(in ssa.Instruction) {
+			if r, isR := in.(*ssa.Return); isR && len(r.Results) == 1 {
+				if sc, ok := resolve(r.Results[0], d+1); ok && (found == nil || found == sc) {
+					found = sc
+				} else {
+					okAll = false
+				}
+			}
+		})
+		return found, okAll && found != nil
+	}
 	formats := map[string]bool{}
-	n := 0
+	seenSite := map[*ssa.Call]bool{}
+	n, nUses := 0, 0
+	site := func(user ssa.Instruction, key ssa.Value) {
+		// keys read back from a transaction's id field were built where that field was stored
+		if _, f, ok := core.LoadedField(key); ok && (f == idTx || f == idRx) {
+			return
+		}
+		// ... or carried by a timeout event (its TrID is the transaction's id: checkTimerCallback)
+		if _, names := core.FieldPath(key); len(names) > 0 && names[len(names)-1] == "TrID" {
+			return
+		}
+		nUses++
+		sc, ok := resolve(key, 0)
+		if !ok {
+			c.Check(rule, fmt.Sprintf("key-site:%s#u%d", core.FnName(user.Parent()), nUses), user.Pos(), false, "a transaction-table key that is not built by the one key format (fmt.Sprintf of peer address and sequence number, possibly through a helper)")
+			return
+		}
+		if seenSite[sc] {
+			return
+		}
+		seenSite[sc] = true
+		n++
+		fc, isC := sc.Call.Args[0].(*ssa.Const)
+		format := ""
+		if isC && fc.Value != nil && fc.Value.Kind() == constant.String {
+			format = constant.StringVal(fc.Value)
+		}
+		formats[format] = true
+		ops := variadicValues(sc.Call.Args[1])
+		okOps := len(ops) == 2
+		desc := fmt.Sprintf("key format %q with %d operands", format, len(ops))
+		if okOps {
+			t0, t1 := ops[0].Type(), ops[1].Type()
+			if mi, isMI := ops[0].(*ssa.MakeInterface); isMI {
+				t0 = mi.X.Type()
+			}
+			if mi, isMI := ops[1].(*ssa.MakeInterface); isMI {
+				t1 = mi.X.Type()
+			}
+			_, isIface := t0.Underlying().(*types.Interface)
+			b1, isBasic := t1.Underlying().(*types.Basic)
+			okOps = isIface && t0.String() == "net.Addr" && isBasic && b1.Info()&types.IsInteger != 0
+			desc += fmt.Sprintf(" (%s, %s)", t0, t1)
+		}
+		c.Check(rule, fmt.Sprintf("key-site:%s#%d", core.FnName(sc.Parent()), n), sc.Pos(), okOps && keyFormat.MatchString(format),
+			desc+": the transaction key is <peer address><separator><sequence number>, so another address or sequence gives another key")
+	}
 	for _, fn := range p.OwnFuncs() {
 		if core.FnPkg(fn).Path() != pkgPfcp {
 			continue
 		}
-		for _, ci := range core.Calls(fn, sprintf) {
-			cl := ci.(*ssa.Call)
-			isKey := false
-			for _, r := range *cl.Referrers() {
-				switch u := r.(type) {
-				case *ssa.Lookup:
-					if _, f, ok := core.LoadedField(u.X); ok && (f == a.rxTrans || f == a.txTrans) && u.Index == ssa.Value(cl) {
-						isKey = true
-					}
-				case *ssa.MapUpdate:
-					if _, f, ok := core.LoadedField(u.Map); ok && (f == a.rxTrans || f == a.txTrans) && u.Key == ssa.Value(cl) {
-						isKey = true
-					}
-				case *ssa.Store:
-					if fa, ok := u.Addr.(*ssa.FieldAddr); ok && (core.FieldOfAddr(fa) == idTx || core.FieldOfAddr(fa) == idRx) {
-						isKey = true
-					}
+		core.Instrs(fn, func(in ssa.Instruction) {
+			switch u := in.(type) {
+			case *ssa.Lookup:
+				if _, f, ok := core.LoadedField(u.X); ok && (f == a.rxTrans || f == a.txTrans) {
+					site(u, core.Unwrap(u.Index))
+				}
+			case *ssa.MapUpdate:
+				if _, f, ok := core.LoadedField(u.Map); ok && (f == a.rxTrans || f == a.txTrans) {
+					site(u, core.Unwrap(u.Key))
+				}
+			case *ssa.Store:
+				if fa, ok := u.Addr.(*ssa.FieldAddr); ok && (core.FieldOfAddr(fa) == idTx || core.FieldOfAddr(fa) == idRx) {
+					site(u, core.Unwrap(u.Val))
 				}
 			}
-			if !isKey {
-				continue
-			}
-			n++
-			fc, ok := cl.Call.Args[0].(*ssa.Const)
-			format := ""
-			if ok && fc.Value != nil && fc.Value.Kind() == constant.String {
-				format = constant.StringVal(fc.Value)
-			}
-			formats[format] = true
-			ops := variadicValues(cl.Call.Args[1])
-			okOps := len(ops) == 2
-			desc := fmt.Sprintf("key format %q with %d operands", format, len(ops))
-			if okOps {
-				t0, t1 := ops[0].Type(), ops[1].Type()
-				_, isIface := t0.Underlying().(*types.Interface)
-				b1, isBasic := t1.Underlying().(*types.Basic)
-				okOps = isIface && t0.String() == "net.Addr" && isBasic && b1.Info()&types.IsInteger != 0
-				desc += fmt.Sprintf(" (%s, %s)", t0, t1)
-			}
-			c.Check(rule, fmt.Sprintf("key-site:%s#%d", core.FnName(fn), n), cl.Pos(), okOps && keyFormat.MatchString(format),
-				desc+": the transaction key is <peer address><separator><sequence number>, so another address or sequence gives another key")
-		}
+		})
 	}
-	c.Floor(rule, n, 4, "transaction key construction sites")
-	c.Check(rule, "key-format-agreement", token.NoPos, len(formats) == 1, fmt.Sprintf("all key sites use one format (%d distinct)", len(formats)))
+	c.Floor(rule, nUses, 4, "transaction key uses (table lookups / inserts / id stores) resolved to their construction")
+	c.Check(rule, "key-format-agreement", token.NoPos, len(formats) == 1, fmt.Sprintf("all key construction sites use one format (%d distinct over %d sites)", len(formats), n))
 }
 
 // variadicValues returns the values packed into a variadic argument slice.
